@@ -41,9 +41,16 @@ def unsupportedRules : List String :=
 
 /-- per-rule classification over the active set: the rules rejected with "rule is not supported" wherever they are reached -/
 theorem rule_classes : unsupportedRules =
-    ["oC_Explain", "oC_Profile", "oC_BulkImportQuery", "oC_Union", "oC_Command", "oC_Foreach", "oC_Start", "oC_CaseExpression",
+    ["oC_CypherOption", "oC_Explain", "oC_Profile", "oC_BulkImportQuery", "oC_Union", "oC_Command", "oC_LoadCSV",
+     "oC_CreateUnique", "oC_Foreach", "oC_InQueryCall", "oC_StandaloneCall", "oC_Hint", "oC_Start",
+     "oC_ListOperatorExpression", "oC_CaseExpression", "oC_ListComprehension", "oC_PatternComprehension",
      "oC_LegacyListExpression", "oC_Reduce", "oC_ExistentialSubquery", "oC_LegacyParameter"] := by
   decide +kernel
+
+/-- shortestPath(...) used as an EXPRESSION is rejected by the active AtomVisitor's own method (as a pattern part it stays represented) -/
+theorem shortest_path_expression_rejected :
+    C.errorStop (tix "AtomVisitor") (rix "oC_ShortestPathPattern") = true ∧
+    C.own (tix "PatternPartVisitor") (rix "oC_ShortestPathPattern") = true := by decide +kernel
 
 /-! ### the `*a..b` mini-parser -/
 
@@ -82,6 +89,9 @@ theorem range_literal_faithful_refuted : ¬ range_literal_faithful_full := by
 
 /-! ### faithfulness on trees — false of the current code -/
 
+def setTree : Tree :=
+  .node 0 [.node 1 [], .node 8 [.node 9 [.node 10 [.node 15 [.node 16 [.node 19 [.node 35 [.leaf "72:MATCH", .leaf "149: ", .node 71 [.node 72 [.node 73 [.node 75 [.node 77 [.leaf "3:(", .node 129 [.node 142 [.leaf "145:n"]], .leaf "4:)"]]]]]]], .leaf "149: ", .node 18 [.node 41 [.leaf "75:SET", .leaf "149: ", .node 42 [.node 89 [.node 109 [.node 129 [.node 142 [.leaf "145:n"]]], .node 108 [.leaf "24:.", .node 137 [.node 140 [.node 142 [.leaf "127:a"]]]], .node 108 [.leaf "24:.", .node 137 [.node 140 [.node 142 [.leaf "127:b"]]]]], .leaf "149: ", .leaf "2:=", .leaf "149: ", .node 90 [.node 91 [.node 92 [.node 93 [.node 94 [.node 95 [.node 97 [.node 102 [.node 103 [.node 104 [.node 105 [.node 106 [.node 109 [.node 130 [.node 132 [.node 133 [.leaf "125:1"]]]]]]]]]]]]]]]]]]]]]]]], .leaf "-1:<EOF>"]
+
 def idxTree : Tree :=
   .node 0 [.node 1 [], .node 8 [.node 9 [.node 10 [.node 15 [.node 16 [.node 19 [.node 35 [.leaf "72:MATCH", .leaf "149: ", .node 71 [.node 72 [.node 73 [.node 75 [.node 77 [.leaf "3:(", .node 129 [.node 142 [.leaf "145:n"]], .leaf "4:)"]]]]]]], .leaf "149: ", .node 52 [.leaf "83:RETURN", .node 53 [.leaf "149: ", .node 54 [.node 55 [.node 90 [.node 91 [.node 92 [.node 93 [.node 94 [.node 95 [.node 97 [.node 102 [.node 103 [.node 104 [.node 105 [.node 106 [.node 109 [.node 129 [.node 142 [.leaf "145:n"]]], .node 108 [.leaf "24:.", .node 137 [.node 140 [.node 142 [.leaf "127:a"]]]], .node 107 [.leaf "5:[", .node 90 [.node 91 [.node 92 [.node 93 [.node 94 [.node 95 [.node 97 [.node 102 [.node 103 [.node 104 [.node 105 [.node 106 [.node 109 [.node 130 [.node 132 [.node 133 [.leaf "125:0"]]]]]]]]]]]]]]]], .leaf "6:]"]]]]]]]]]]]]]]]]]]]]]], .leaf "-1:<EOF>"]
 
@@ -103,19 +113,24 @@ def C07_full : Prop :=
       Dawgs.C08.Inst.E.listenerErrors t = [] → C.ignoredIn t = []) ∧
   range_literal_faithful_full
 
-/-- `MATCH (n) RETURN n.a[0]`: grammatical, complete, no error — and the walk meets (NonArithmeticOperatorExpressionVisitor,
-oC_ListOperatorExpression), an empty stub: the index expression replaces the indexed one -/
+/-- `MATCH (n) SET n.a.b = 1`: grammatical, complete, no error under frontend.NewContext() — and the walk meets
+(PropertyExpressionVisitor, oC_PropertyLookup), an empty stub: every key overwrites the previous one (`n.b = 1`) -/
 theorem faithful_refuted :
-    idxTree.rootRule = some 0 ∧ idxTree.wf Dawgs.C08.Inst.refs = true ∧ idxTree.conforms Dawgs.C08.Inst.must = true ∧
-    Dawgs.C08.Inst.E.listenerErrors idxTree = [] ∧ C.ignoredIn idxTree = [(tix "NonArithmeticOperatorExpressionVisitor", rix "oC_ListOperatorExpression")] := by
+    setTree.rootRule = some 0 ∧ setTree.wf Dawgs.C08.Inst.refs = true ∧ setTree.conforms Dawgs.C08.Inst.must = true ∧
+    Dawgs.C08.Inst.E.listenerErrors setTree = [] ∧ C.ignoredIn setTree = [(tix "PropertyExpressionVisitor", rix "oC_PropertyLookup"), (tix "PropertyExpressionVisitor", rix "oC_PropertyLookup")] := by
   decide +kernel
 
 theorem c07_full_refuted : ¬ C07_full := by
   intro h
   obtain ⟨h1, h2, h3, h4, h5⟩ := faithful_refuted
-  have := h.1 idxTree h1 h2 h3 h4
+  have := h.1 setTree h1 h2 h3 h4
   rw [h5] at this
   cases this
+
+/-- repaired: `MATCH (n) RETURN n.a[0]` (list indexing, formerly read as `0`) is now rejected as unsupported; against the
+OLD table (BaseVisitor.EnterOC_ListOperatorExpression an empty stub) it raised no error -/
+theorem list_index_now_rejected :
+    Dawgs.C08.Inst.E.listenerErrors idxTree ≠ [] ∧ Dawgs.C08.Inst.E_old.listenerErrors idxTree = [] := by decide +kernel
 
 /-- what IS proved for the current code: the classification (any silently ignored construct is one of the listed ones,
 and every listed one is real), the range fragment (faithful for every form but `*n`; emit-parse fixed point).
